@@ -1990,6 +1990,18 @@ func main() {
 	types.InitGovernance("dpos", true)
 	fd := &findings{run: run, seen: map[string]bool{}}
 	only := os.Getenv("C15_ONLY") // debugging aid: "node" runs the node-level part alone
+	if only == "neg" {
+		s := newSess(run, fd, run.Rng.Fork(), 2, "scripted:negative-parameter")
+		a := s.addAcct(fixedAddr(20), coins(20000))
+		s.h = 2
+		s.stake(a, coins(10000))
+		s.voteDAO(a, "GASPRICE", []string{"-5"})
+		s.voteDAO(a, "BPCOUNT", []string{"+7"})
+		s.endBlock(3)
+		cur, next := system.VerifC15ParamsMemory()
+		fmt.Fprintf(os.Stderr, "memory %s next %s\nstate  %s\n", showParams(cur), showParams(next), showParams(system.VerifC15ParamsLoad(s.sys())))
+		return
+	}
 	if only == "" || only == "node" {
 		nodeScripted(run, fd)
 		for i := 0; i < run.Pick(10, 120); i++ {
